@@ -264,3 +264,479 @@ Example ex_text_roundtrip_concrete :
                             JStr (String (chr 1) "q""\"); JNum (JFloat (num_of_bits 0x3fb999999999999a))]);
                 ("k", JNull)]).
 Proof. vm_compute. reflexivity. Qed.
+
+(* ==================================================================================================
+   Extension round: the three "partial" items of notes/C06.md closed.
+   (i)   json_nums_ok is no longer a hypothesis for parsed documents: the invariant of
+         serde_json::Number (JsonWf.jnum_wf) is established by the parser model, by to_json /
+         write_outputs and kept by sj_build, and implies json_nums_ok (u64 / i64 `as f64` is finite:
+         Flocq, hence the four allow-listed standard-library axioms under these theorems).
+   (ii)  the input direction at TEXT level: parse-print-parse, and the echo program from the bytes
+         of the input to the bytes of the output.
+   (iii) a GLOBAL instance of the two library hypotheses: the exact decimal expansion printer and
+         the correctly rounded reader of C16 (JsonExact.v), for every finite binary64 datum.
+         serde_json prints ryu's SHORTEST round-tripping decimal instead of the exact expansion; that
+         ryu's text is read back is tied by the NUM / XNUM streams of checks/c06.py, not proved.
+   ================================================================================================== *)
+Require Import Blots.JsonWf Blots.JsonExact.
+Require Import Blots.proofs.JsonNumsOk Blots.proofs.JsonTextEcho Blots.proofs.JsonInstance.
+Open Scope Z_scope.
+
+(* ---- (i) the Number invariant ---- *)
+(* Number::as_f64 of an integer Number: `n as f64` is finite for every u64 and every i64 *)
+Theorem C06_u64_i64_as_f64_finite : forall z, - 2 ^ 63 <= z < 2 ^ 64 -> is_finite (num_of_Z z) = true.
+Proof. exact num_of_Z_finite_u64_i64. Qed.
+Check C06_u64_i64_as_f64_finite : forall z, - 2 ^ 63 <= z < 2 ^ 64 -> is_finite (num_of_Z z) = true.
+Print Assumptions C06_u64_i64_as_f64_finite.
+
+(* integers in u64 / negative i64 range, Float finite  ==>  the double of every number is finite *)
+Theorem C06_number_invariant_nums_ok : forall d, json_wf d = true -> json_nums_ok d = true.
+Proof. exact json_wf_nums_ok. Qed.
+Check C06_number_invariant_nums_ok : forall d, json_wf d = true -> json_nums_ok d = true.
+Print Assumptions C06_number_invariant_nums_ok.
+
+(* the parser model establishes the invariant (and the depth bound) for EVERY text it accepts, as
+   soon as the text->double conversion never returns NaN or an infinity *)
+Theorem C06_parser_establishes_number_invariant : forall fot s d,
+  fot_finite fot -> json_from_str fot s = Some d -> json_wf d = true /\ (jdepth d <= 127)%nat.
+Proof. exact json_from_str_wf. Qed.
+Check C06_parser_establishes_number_invariant : forall fot s d,
+  fot_finite fot -> json_from_str fot s = Some d -> json_wf d = true /\ (jdepth d <= 127)%nat.
+Print Assumptions C06_parser_establishes_number_invariant.
+
+(* to_json (Number::from_f64 or the `0` fallback), write_outputs, serde_json's map builder and the
+   canonical form all produce / keep well-formed Numbers *)
+Theorem C06_values_establish_number_invariant :
+  (forall s, json_wf (to_json s) = true) /\
+  (forall outs, json_wf (write_outputs outs) = true) /\
+  (forall d, json_wf d = true -> json_wf (sj_build d) = true) /\
+  (forall d, json_wf d = true -> json_wf (jcanon d) = true).
+Proof. exact number_invariant_established. Qed.
+Check C06_values_establish_number_invariant :
+  (forall s, json_wf (to_json s) = true) /\
+  (forall outs, json_wf (write_outputs outs) = true) /\
+  (forall d, json_wf d = true -> json_wf (sj_build d) = true) /\
+  (forall d, json_wf d = true -> json_wf (jcanon d) = true).
+Print Assumptions C06_values_establish_number_invariant.
+
+Theorem C06_parsed_nums_ok : forall fot s d,
+  fot_finite fot -> json_from_str fot s = Some d -> json_nums_ok d = true.
+Proof. exact json_from_str_nums_ok. Qed.
+Check C06_parsed_nums_ok : forall fot s d,
+  fot_finite fot -> json_from_str fot s = Some d -> json_nums_ok d = true.
+Print Assumptions C06_parsed_nums_ok.
+
+(* C06_input_echo / C06_cli_echo_* without the hypothesis json_nums_ok, for every document the
+   parser returned for an input text *)
+Theorem C06_input_echo_parsed : forall pfs pbody emit nameof fot, fot_finite fot -> forall s d,
+  json_from_str fot s = Some d -> json_no_reserved pfs (sj_build d) = true ->
+  (do v <- to_value pbody (from_json pfs (sj_build d)); do s <- from_value emit nameof v; Ok (to_json s))
+  = Ok (jcanon d)
+  /\ json_equiv (jcanon d) d.
+Proof. exact input_echo_parsed. Qed.
+Check C06_input_echo_parsed : forall pfs pbody emit nameof fot, fot_finite fot -> forall s d,
+  json_from_str fot s = Some d -> json_no_reserved pfs (sj_build d) = true ->
+  (do v <- to_value pbody (from_json pfs (sj_build d)); do s <- from_value emit nameof v; Ok (to_json s))
+  = Ok (jcanon d)
+  /\ json_equiv (jcanon d) d.
+Print Assumptions C06_input_echo_parsed.
+
+Theorem C06_cli_echo_object_parsed : forall pfs pbody emit nameof fot, fot_finite fot ->
+  forall s m key name x,
+  json_from_str fot s = Some (JObj m) ->
+  forallb (fun kv => json_no_reserved pfs (sj_build (snd kv))) m = true ->
+  jlookup m key = Some x ->
+  cli_echo pfs pbody emit nameof (JObj m) key name = Ok (JObj [(name, jcanon x)]).
+Proof. exact cli_echo_object_parsed. Qed.
+Check C06_cli_echo_object_parsed : forall pfs pbody emit nameof fot, fot_finite fot ->
+  forall s m key name x,
+  json_from_str fot s = Some (JObj m) ->
+  forallb (fun kv => json_no_reserved pfs (sj_build (snd kv))) m = true ->
+  jlookup m key = Some x ->
+  cli_echo pfs pbody emit nameof (JObj m) key name = Ok (JObj [(name, jcanon x)]).
+Print Assumptions C06_cli_echo_object_parsed.
+
+Theorem C06_cli_echo_non_object_parsed : forall pfs pbody emit nameof fot, fot_finite fot ->
+  forall s d name,
+  json_from_str fot s = Some d -> (forall m, d <> JObj m) ->
+  json_no_reserved pfs (sj_build d) = true ->
+  cli_echo pfs pbody emit nameof d "value_1" name = Ok (JObj [(name, jcanon d)]).
+Proof. exact cli_echo_non_object_parsed. Qed.
+Check C06_cli_echo_non_object_parsed : forall pfs pbody emit nameof fot, fot_finite fot ->
+  forall s d name,
+  json_from_str fot s = Some d -> (forall m, d <> JObj m) ->
+  json_no_reserved pfs (sj_build d) = true ->
+  cli_echo pfs pbody emit nameof d "value_1" name = Ok (JObj [(name, jcanon d)]).
+Print Assumptions C06_cli_echo_non_object_parsed.
+
+(* ---- (ii) the input direction at text level ---- *)
+(* C06_json_text_roundtrip with the two library hypotheses required only on a class okf of finite
+   doubles (okf := is_finite gives C06_json_text_roundtrip back) *)
+Theorem C06_json_text_roundtrip_on_class : forall fmt_pieces float_of_tok okf,
+  (forall x, okf x = true -> tok_wf (fmt_pieces x) = true /\ tok_is_float (fmt_pieces x) = true) ->
+  (forall x, okf x = true -> float_of_tok (fmt_pieces x) = Some x) ->
+  (forall x, okf x = true -> is_finite x = true) ->
+  forall j, json_all (okn_of okf) j = true -> (jdepth j <= 127)%nat ->
+  json_from_str float_of_tok (jprint fmt_pieces j) = Some j.
+Proof. exact json_text_roundtrip_g. Qed.
+Check C06_json_text_roundtrip_on_class : forall fmt_pieces float_of_tok okf,
+  (forall x, okf x = true -> tok_wf (fmt_pieces x) = true /\ tok_is_float (fmt_pieces x) = true) ->
+  (forall x, okf x = true -> float_of_tok (fmt_pieces x) = Some x) ->
+  (forall x, okf x = true -> is_finite x = true) ->
+  forall j, json_all (okn_of okf) j = true -> (jdepth j <= 127)%nat ->
+  json_from_str float_of_tok (jprint fmt_pieces j) = Some j.
+Print Assumptions C06_json_text_roundtrip_on_class.
+
+(* parse-print-parse: for EVERY input text the parser accepts, the document it returned is printed
+   to a text that the parser reads as that same document.  No condition on the document (ranges and
+   nesting are established by the parser); library hypotheses on the class okf, plus: the reader only
+   returns doubles of the class *)
+Theorem C06_parse_print_parse : forall fmt_pieces float_of_tok okf,
+  (forall x, okf x = true -> tok_wf (fmt_pieces x) = true /\ tok_is_float (fmt_pieces x) = true) ->
+  (forall x, okf x = true -> float_of_tok (fmt_pieces x) = Some x) ->
+  (forall x, okf x = true -> is_finite x = true) ->
+  (forall t x, float_of_tok t = Some x -> okf x = true) ->
+  forall s d, json_from_str float_of_tok s = Some d ->
+  json_from_str float_of_tok (jprint fmt_pieces d) = Some d.
+Proof. exact parse_print_parse. Qed.
+Check C06_parse_print_parse : forall fmt_pieces float_of_tok okf,
+  (forall x, okf x = true -> tok_wf (fmt_pieces x) = true /\ tok_is_float (fmt_pieces x) = true) ->
+  (forall x, okf x = true -> float_of_tok (fmt_pieces x) = Some x) ->
+  (forall x, okf x = true -> is_finite x = true) ->
+  (forall t x, float_of_tok t = Some x -> okf x = true) ->
+  forall s d, json_from_str float_of_tok s = Some d ->
+  json_from_str float_of_tok (jprint fmt_pieces d) = Some d.
+Print Assumptions C06_parse_print_parse.
+
+(* ... under exactly the two hypotheses of C06_json_text_roundtrip (and a reader that never returns
+   NaN / infinity), in the form asked for: the re-read document is json_equiv *)
+Theorem C06_parse_print_parse_finite : forall fmt_pieces float_of_tok,
+  (forall x, is_finite x = true -> tok_wf (fmt_pieces x) = true /\ tok_is_float (fmt_pieces x) = true) ->
+  (forall x, is_finite x = true -> float_of_tok (fmt_pieces x) = Some x) ->
+  fot_finite float_of_tok ->
+  forall s d, json_from_str float_of_tok s = Some d ->
+  exists d', json_from_str float_of_tok (jprint fmt_pieces d) = Some d' /\ json_equiv d d'.
+Proof. exact parse_print_parse_finite. Qed.
+Check C06_parse_print_parse_finite : forall fmt_pieces float_of_tok,
+  (forall x, is_finite x = true -> tok_wf (fmt_pieces x) = true /\ tok_is_float (fmt_pieces x) = true) ->
+  (forall x, is_finite x = true -> float_of_tok (fmt_pieces x) = Some x) ->
+  fot_finite float_of_tok ->
+  forall s d, json_from_str float_of_tok s = Some d ->
+  exists d', json_from_str float_of_tok (jprint fmt_pieces d) = Some d' /\ json_equiv d d'.
+Print Assumptions C06_parse_print_parse_finite.
+
+(* the echo program text to text: `blots -i '<s>' 'output <name> = inputs.<key>'` succeeds, and what
+   it writes parses to {<name>: jcanon x}, x the member of the input that counts for <key>;
+   jcanon x is json_equiv to x (equal as a JSON value by C06_json_equiv_is_value_equality) *)
+Theorem C06_cli_text_echo_object : forall pfs pbody emit nameof fmt_pieces float_of_tok okf,
+  (forall x, okf x = true -> tok_wf (fmt_pieces x) = true /\ tok_is_float (fmt_pieces x) = true) ->
+  (forall x, okf x = true -> float_of_tok (fmt_pieces x) = Some x) ->
+  (forall x, okf x = true -> is_finite x = true) ->
+  (forall t x, float_of_tok t = Some x -> okf x = true) ->
+  (forall z, I64_MIN <= z <= U64_MAX -> okf (num_of_Z z) = true) ->
+  forall s m key name x,
+  json_from_str float_of_tok s = Some (JObj m) ->
+  forallb (fun kv => json_no_reserved pfs (sj_build (snd kv))) m = true ->
+  jlookup m key = Some x ->
+  cli_text_echo pfs pbody emit nameof fmt_pieces float_of_tok s key name
+    = Ok (jprint fmt_pieces (JObj [(name, jcanon x)]))
+  /\ json_from_str float_of_tok (jprint fmt_pieces (JObj [(name, jcanon x)])) = Some (JObj [(name, jcanon x)])
+  /\ json_equiv (jcanon x) x.
+Proof. exact cli_text_echo_object. Qed.
+Check C06_cli_text_echo_object : forall pfs pbody emit nameof fmt_pieces float_of_tok okf,
+  (forall x, okf x = true -> tok_wf (fmt_pieces x) = true /\ tok_is_float (fmt_pieces x) = true) ->
+  (forall x, okf x = true -> float_of_tok (fmt_pieces x) = Some x) ->
+  (forall x, okf x = true -> is_finite x = true) ->
+  (forall t x, float_of_tok t = Some x -> okf x = true) ->
+  (forall z, I64_MIN <= z <= U64_MAX -> okf (num_of_Z z) = true) ->
+  forall s m key name x,
+  json_from_str float_of_tok s = Some (JObj m) ->
+  forallb (fun kv => json_no_reserved pfs (sj_build (snd kv))) m = true ->
+  jlookup m key = Some x ->
+  cli_text_echo pfs pbody emit nameof fmt_pieces float_of_tok s key name
+    = Ok (jprint fmt_pieces (JObj [(name, jcanon x)]))
+  /\ json_from_str float_of_tok (jprint fmt_pieces (JObj [(name, jcanon x)])) = Some (JObj [(name, jcanon x)])
+  /\ json_equiv (jcanon x) x.
+Print Assumptions C06_cli_text_echo_object.
+
+Theorem C06_cli_text_echo_object_finite : forall pfs pbody emit nameof fmt_pieces float_of_tok,
+  (forall x, is_finite x = true -> tok_wf (fmt_pieces x) = true /\ tok_is_float (fmt_pieces x) = true) ->
+  (forall x, is_finite x = true -> float_of_tok (fmt_pieces x) = Some x) ->
+  fot_finite float_of_tok ->
+  forall s m key name x,
+  json_from_str float_of_tok s = Some (JObj m) ->
+  forallb (fun kv => json_no_reserved pfs (sj_build (snd kv))) m = true ->
+  jlookup m key = Some x ->
+  cli_text_echo pfs pbody emit nameof fmt_pieces float_of_tok s key name
+    = Ok (jprint fmt_pieces (JObj [(name, jcanon x)]))
+  /\ json_from_str float_of_tok (jprint fmt_pieces (JObj [(name, jcanon x)])) = Some (JObj [(name, jcanon x)])
+  /\ json_equiv (jcanon x) x.
+Proof. exact cli_text_echo_object_finite. Qed.
+Check C06_cli_text_echo_object_finite : forall pfs pbody emit nameof fmt_pieces float_of_tok,
+  (forall x, is_finite x = true -> tok_wf (fmt_pieces x) = true /\ tok_is_float (fmt_pieces x) = true) ->
+  (forall x, is_finite x = true -> float_of_tok (fmt_pieces x) = Some x) ->
+  fot_finite float_of_tok ->
+  forall s m key name x,
+  json_from_str float_of_tok s = Some (JObj m) ->
+  forallb (fun kv => json_no_reserved pfs (sj_build (snd kv))) m = true ->
+  jlookup m key = Some x ->
+  cli_text_echo pfs pbody emit nameof fmt_pieces float_of_tok s key name
+    = Ok (jprint fmt_pieces (JObj [(name, jcanon x)]))
+  /\ json_from_str float_of_tok (jprint fmt_pieces (JObj [(name, jcanon x)])) = Some (JObj [(name, jcanon x)])
+  /\ json_equiv (jcanon x) x.
+Print Assumptions C06_cli_text_echo_object_finite.
+
+(* the output of the echo program is a fixed point: fed back as the input of
+   `output <name> = inputs.<name>` it is reproduced byte for byte *)
+Theorem C06_cli_text_echo_fixed_point : forall pfs pbody emit nameof fmt_pieces float_of_tok okf,
+  (forall x, okf x = true -> tok_wf (fmt_pieces x) = true /\ tok_is_float (fmt_pieces x) = true) ->
+  (forall x, okf x = true -> float_of_tok (fmt_pieces x) = Some x) ->
+  (forall x, okf x = true -> is_finite x = true) ->
+  (forall t x, float_of_tok t = Some x -> okf x = true) ->
+  (forall z, I64_MIN <= z <= U64_MAX -> okf (num_of_Z z) = true) ->
+  forall s m key name x,
+  json_from_str float_of_tok s = Some (JObj m) ->
+  forallb (fun kv => json_no_reserved pfs (sj_build (snd kv))) m = true ->
+  jlookup m key = Some x ->
+  let out := jprint fmt_pieces (JObj [(name, jcanon x)]) in
+  cli_text_echo pfs pbody emit nameof fmt_pieces float_of_tok s key name = Ok out /\
+  cli_text_echo pfs pbody emit nameof fmt_pieces float_of_tok out name name = Ok out.
+Proof. exact cli_text_echo_fixed_point. Qed.
+Check C06_cli_text_echo_fixed_point : forall pfs pbody emit nameof fmt_pieces float_of_tok okf,
+  (forall x, okf x = true -> tok_wf (fmt_pieces x) = true /\ tok_is_float (fmt_pieces x) = true) ->
+  (forall x, okf x = true -> float_of_tok (fmt_pieces x) = Some x) ->
+  (forall x, okf x = true -> is_finite x = true) ->
+  (forall t x, float_of_tok t = Some x -> okf x = true) ->
+  (forall z, I64_MIN <= z <= U64_MAX -> okf (num_of_Z z) = true) ->
+  forall s m key name x,
+  json_from_str float_of_tok s = Some (JObj m) ->
+  forallb (fun kv => json_no_reserved pfs (sj_build (snd kv))) m = true ->
+  jlookup m key = Some x ->
+  let out := jprint fmt_pieces (JObj [(name, jcanon x)]) in
+  cli_text_echo pfs pbody emit nameof fmt_pieces float_of_tok s key name = Ok out /\
+  cli_text_echo pfs pbody emit nameof fmt_pieces float_of_tok out name name = Ok out.
+Print Assumptions C06_cli_text_echo_fixed_point.
+
+(* a bare (non-object) input is echoed through inputs.value_1; the output is one level deeper than
+   the input, hence nesting <= 126 (C06_cli_text_echo_depth_refuted, finding C06-F31) *)
+Theorem C06_cli_text_echo_non_object : forall pfs pbody emit nameof fmt_pieces float_of_tok okf,
+  (forall x, okf x = true -> tok_wf (fmt_pieces x) = true /\ tok_is_float (fmt_pieces x) = true) ->
+  (forall x, okf x = true -> float_of_tok (fmt_pieces x) = Some x) ->
+  (forall x, okf x = true -> is_finite x = true) ->
+  (forall t x, float_of_tok t = Some x -> okf x = true) ->
+  (forall z, I64_MIN <= z <= U64_MAX -> okf (num_of_Z z) = true) ->
+  forall s d name,
+  json_from_str float_of_tok s = Some d -> (forall m, d <> JObj m) ->
+  json_no_reserved pfs (sj_build d) = true -> (jdepth d <= 126)%nat ->
+  cli_text_echo pfs pbody emit nameof fmt_pieces float_of_tok s "value_1" name
+    = Ok (jprint fmt_pieces (JObj [(name, jcanon d)]))
+  /\ json_from_str float_of_tok (jprint fmt_pieces (JObj [(name, jcanon d)])) = Some (JObj [(name, jcanon d)])
+  /\ json_equiv (jcanon d) d.
+Proof. exact cli_text_echo_non_object. Qed.
+Check C06_cli_text_echo_non_object : forall pfs pbody emit nameof fmt_pieces float_of_tok okf,
+  (forall x, okf x = true -> tok_wf (fmt_pieces x) = true /\ tok_is_float (fmt_pieces x) = true) ->
+  (forall x, okf x = true -> float_of_tok (fmt_pieces x) = Some x) ->
+  (forall x, okf x = true -> is_finite x = true) ->
+  (forall t x, float_of_tok t = Some x -> okf x = true) ->
+  (forall z, I64_MIN <= z <= U64_MAX -> okf (num_of_Z z) = true) ->
+  forall s d name,
+  json_from_str float_of_tok s = Some d -> (forall m, d <> JObj m) ->
+  json_no_reserved pfs (sj_build d) = true -> (jdepth d <= 126)%nat ->
+  cli_text_echo pfs pbody emit nameof fmt_pieces float_of_tok s "value_1" name
+    = Ok (jprint fmt_pieces (JObj [(name, jcanon d)]))
+  /\ json_from_str float_of_tok (jprint fmt_pieces (JObj [(name, jcanon d)])) = Some (JObj [(name, jcanon d)])
+  /\ json_equiv (jcanon d) d.
+Print Assumptions C06_cli_text_echo_non_object.
+
+(* F31 at the echo level: a bare array nested 127 deep is accepted as input; the output of
+   `output x = inputs.value_1`, one level deeper, is rejected as input *)
+Lemma C06_cli_text_echo_depth_refuted :
+  let s := jprint no_tok (nest 126 (JArr [])) in
+  let out := jprint no_tok (JObj [("x"%string, nest 126 (JArr []))]) in
+  json_from_str sj_float_of_tok s = Some (nest 126 (JArr [])) /\
+  cli_text_echo no_fn no_body no_emit no_name no_tok sj_float_of_tok s "value_1" "x" = Ok out /\
+  json_from_str sj_float_of_tok out = None.
+Proof. exact cli_text_echo_depth_refuted. Qed.
+
+(* ---- (iii) the global instance: exact decimal printer + correctly rounded reader ---- *)
+(* H_print_wf holds for it (for every datum) *)
+Theorem C06_exact_print_wf : forall x,
+  tok_wf (exact_pieces x) = true /\ tok_is_float (exact_pieces x) = true.
+Proof. exact exact_print_wf. Qed.
+Check C06_exact_print_wf : forall x,
+  tok_wf (exact_pieces x) = true /\ tok_is_float (exact_pieces x) = true.
+Print Assumptions C06_exact_print_wf.
+
+(* H_roundtrip holds for it for every finite double (valid binary64 datum) *)
+Theorem C06_exact_roundtrip : forall x,
+  is_finite x = true -> is_double x = true -> rn_float_of_tok (exact_pieces x) = Some x.
+Proof. exact exact_roundtrip. Qed.
+Check C06_exact_roundtrip : forall x,
+  is_finite x = true -> is_double x = true -> rn_float_of_tok (exact_pieces x) = Some x.
+Print Assumptions C06_exact_roundtrip.
+
+(* the reader returns finite valid doubles only ("number out of range" otherwise) *)
+Theorem C06_exact_reader_sound : fot_finite rn_float_of_tok /\ fot_doubles rn_float_of_tok.
+Proof. exact (conj rn_float_of_tok_finite rn_float_of_tok_doubles). Qed.
+Check C06_exact_reader_sound : fot_finite rn_float_of_tok /\ fot_doubles rn_float_of_tok.
+Print Assumptions C06_exact_reader_sound.
+
+(* the reader of the instance is the float_roundtrip configuration of C16's line-by-line
+   transcription of serde_json's number parser (NumText.serde_number true), read on the token's text *)
+Require Import Blots.NumText Blots.proofs.JsonInstanceC16.
+Theorem C06_exact_reader_is_serde_float_roundtrip : forall t,
+  tok_wf t = true -> tok_is_float t = true -> tok_exp_small t ->
+  serde_number true (render_tok t) = match rn_float_of_tok t with Some x => Ok x | None => Err end.
+Proof. exact serde_number_is_rn_float_of_tok. Qed.
+Check C06_exact_reader_is_serde_float_roundtrip : forall t,
+  tok_wf t = true -> tok_is_float t = true -> tok_exp_small t ->
+  serde_number true (render_tok t) = match rn_float_of_tok t with Some x => Ok x | None => Err end.
+Print Assumptions C06_exact_reader_is_serde_float_roundtrip.
+
+(* the text-level theorems for the instance: no hypothesis on the library left *)
+Theorem C06_json_text_roundtrip_exact : forall j,
+  json_wf j = true -> json_doubles j = true -> (jdepth j <= 127)%nat ->
+  json_from_str rn_float_of_tok (jprint exact_pieces j) = Some j.
+Proof. exact json_text_roundtrip_exact. Qed.
+Check C06_json_text_roundtrip_exact : forall j,
+  json_wf j = true -> json_doubles j = true -> (jdepth j <= 127)%nat ->
+  json_from_str rn_float_of_tok (jprint exact_pieces j) = Some j.
+Print Assumptions C06_json_text_roundtrip_exact.
+
+Theorem C06_parse_print_parse_exact : forall s d,
+  json_from_str rn_float_of_tok s = Some d ->
+  json_from_str rn_float_of_tok (jprint exact_pieces d) = Some d.
+Proof. exact parse_print_parse_exact. Qed.
+Check C06_parse_print_parse_exact : forall s d,
+  json_from_str rn_float_of_tok s = Some d ->
+  json_from_str rn_float_of_tok (jprint exact_pieces d) = Some d.
+Print Assumptions C06_parse_print_parse_exact.
+
+Theorem C06_cli_text_echo_object_exact : forall pfs pbody emit nameof s m key name x,
+  json_from_str rn_float_of_tok s = Some (JObj m) ->
+  forallb (fun kv => json_no_reserved pfs (sj_build (snd kv))) m = true ->
+  jlookup m key = Some x ->
+  cli_text_echo pfs pbody emit nameof exact_pieces rn_float_of_tok s key name
+    = Ok (jprint exact_pieces (JObj [(name, jcanon x)]))
+  /\ json_from_str rn_float_of_tok (jprint exact_pieces (JObj [(name, jcanon x)])) = Some (JObj [(name, jcanon x)])
+  /\ json_equiv (jcanon x) x.
+Proof. exact cli_text_echo_object_exact. Qed.
+Check C06_cli_text_echo_object_exact : forall pfs pbody emit nameof s m key name x,
+  json_from_str rn_float_of_tok s = Some (JObj m) ->
+  forallb (fun kv => json_no_reserved pfs (sj_build (snd kv))) m = true ->
+  jlookup m key = Some x ->
+  cli_text_echo pfs pbody emit nameof exact_pieces rn_float_of_tok s key name
+    = Ok (jprint exact_pieces (JObj [(name, jcanon x)]))
+  /\ json_from_str rn_float_of_tok (jprint exact_pieces (JObj [(name, jcanon x)])) = Some (JObj [(name, jcanon x)])
+  /\ json_equiv (jcanon x) x.
+Print Assumptions C06_cli_text_echo_object_exact.
+
+Theorem C06_cli_text_echo_non_object_exact : forall pfs pbody emit nameof s d name,
+  json_from_str rn_float_of_tok s = Some d -> (forall m, d <> JObj m) ->
+  json_no_reserved pfs (sj_build d) = true -> (jdepth d <= 126)%nat ->
+  cli_text_echo pfs pbody emit nameof exact_pieces rn_float_of_tok s "value_1" name
+    = Ok (jprint exact_pieces (JObj [(name, jcanon d)]))
+  /\ json_from_str rn_float_of_tok (jprint exact_pieces (JObj [(name, jcanon d)])) = Some (JObj [(name, jcanon d)])
+  /\ json_equiv (jcanon d) d.
+Proof. exact cli_text_echo_non_object_exact. Qed.
+Check C06_cli_text_echo_non_object_exact : forall pfs pbody emit nameof s d name,
+  json_from_str rn_float_of_tok s = Some d -> (forall m, d <> JObj m) ->
+  json_no_reserved pfs (sj_build d) = true -> (jdepth d <= 126)%nat ->
+  cli_text_echo pfs pbody emit nameof exact_pieces rn_float_of_tok s "value_1" name
+    = Ok (jprint exact_pieces (JObj [(name, jcanon d)]))
+  /\ json_from_str rn_float_of_tok (jprint exact_pieces (JObj [(name, jcanon d)])) = Some (JObj [(name, jcanon d)])
+  /\ json_equiv (jcanon d) d.
+Print Assumptions C06_cli_text_echo_non_object_exact.
+
+Theorem C06_cli_text_echo_fixed_point_exact : forall pfs pbody emit nameof s m key name x,
+  json_from_str rn_float_of_tok s = Some (JObj m) ->
+  forallb (fun kv => json_no_reserved pfs (sj_build (snd kv))) m = true ->
+  jlookup m key = Some x ->
+  let out := jprint exact_pieces (JObj [(name, jcanon x)]) in
+  cli_text_echo pfs pbody emit nameof exact_pieces rn_float_of_tok s key name = Ok out /\
+  cli_text_echo pfs pbody emit nameof exact_pieces rn_float_of_tok out name name = Ok out.
+Proof. exact cli_text_echo_fixed_point_exact. Qed.
+Check C06_cli_text_echo_fixed_point_exact : forall pfs pbody emit nameof s m key name x,
+  json_from_str rn_float_of_tok s = Some (JObj m) ->
+  forallb (fun kv => json_no_reserved pfs (sj_build (snd kv))) m = true ->
+  jlookup m key = Some x ->
+  let out := jprint exact_pieces (JObj [(name, jcanon x)]) in
+  cli_text_echo pfs pbody emit nameof exact_pieces rn_float_of_tok s key name = Ok out /\
+  cli_text_echo pfs pbody emit nameof exact_pieces rn_float_of_tok out name name = Ok out.
+Print Assumptions C06_cli_text_echo_fixed_point_exact.
+
+(* sentence one of the property through text, for the instance *)
+Theorem C06_cli_text_out_in_exact : forall pfs pbody emit nameof v name,
+  json_data v = true -> value_doubles v = true -> value_no_reserved pfs v = true ->
+  (jdepth (write_outputs [(name, sv_of v)]) <= 127)%nat ->
+  cli_text_out_in pfs pbody emit nameof exact_pieces rn_float_of_tok v name = Ok (vsort v)
+  /\ equals (vsort v) v = true /\ same_data (vsort v) v = true.
+Proof. exact cli_text_out_in_exact. Qed.
+Check C06_cli_text_out_in_exact : forall pfs pbody emit nameof v name,
+  json_data v = true -> value_doubles v = true -> value_no_reserved pfs v = true ->
+  (jdepth (write_outputs [(name, sv_of v)]) <= 127)%nat ->
+  cli_text_out_in pfs pbody emit nameof exact_pieces rn_float_of_tok v name = Ok (vsort v)
+  /\ equals (vsort v) v = true /\ same_data (vsort v) v = true.
+Print Assumptions C06_cli_text_out_in_exact.
+
+(* sentence one at the level of the bytes: what a run writes for a data value, a second run
+   `output <name> = inputs.<name>` reading those bytes writes again, byte for byte *)
+Theorem C06_cli_text_out_echo_fixed_point : forall pfs pbody emit nameof fmt_pieces float_of_tok okf,
+  (forall x, okf x = true -> tok_wf (fmt_pieces x) = true /\ tok_is_float (fmt_pieces x) = true) ->
+  (forall x, okf x = true -> float_of_tok (fmt_pieces x) = Some x) ->
+  (forall x, okf x = true -> is_finite x = true) ->
+  (forall t x, float_of_tok t = Some x -> okf x = true) ->
+  (forall z, I64_MIN <= z <= U64_MAX -> okf (num_of_Z z) = true) ->
+  forall v name,
+  json_data v = true -> value_no_reserved pfs v = true ->
+  json_all (okn_of okf) (to_json (sv_of v)) = true ->
+  (jdepth (write_outputs [(name, sv_of v)]) <= 127)%nat ->
+  let out := jprint fmt_pieces (write_outputs [(name, sv_of v)]) in
+  cli_text_echo pfs pbody emit nameof fmt_pieces float_of_tok out name name = Ok out.
+Proof. exact cli_text_out_echo_fixed_point. Qed.
+Check C06_cli_text_out_echo_fixed_point : forall pfs pbody emit nameof fmt_pieces float_of_tok okf,
+  (forall x, okf x = true -> tok_wf (fmt_pieces x) = true /\ tok_is_float (fmt_pieces x) = true) ->
+  (forall x, okf x = true -> float_of_tok (fmt_pieces x) = Some x) ->
+  (forall x, okf x = true -> is_finite x = true) ->
+  (forall t x, float_of_tok t = Some x -> okf x = true) ->
+  (forall z, I64_MIN <= z <= U64_MAX -> okf (num_of_Z z) = true) ->
+  forall v name,
+  json_data v = true -> value_no_reserved pfs v = true ->
+  json_all (okn_of okf) (to_json (sv_of v)) = true ->
+  (jdepth (write_outputs [(name, sv_of v)]) <= 127)%nat ->
+  let out := jprint fmt_pieces (write_outputs [(name, sv_of v)]) in
+  cli_text_echo pfs pbody emit nameof fmt_pieces float_of_tok out name name = Ok out.
+Print Assumptions C06_cli_text_out_echo_fixed_point.
+
+Theorem C06_cli_text_out_echo_fixed_point_exact : forall pfs pbody emit nameof v name,
+  json_data v = true -> value_doubles v = true -> value_no_reserved pfs v = true ->
+  (jdepth (write_outputs [(name, sv_of v)]) <= 127)%nat ->
+  let out := jprint exact_pieces (write_outputs [(name, sv_of v)]) in
+  cli_text_echo pfs pbody emit nameof exact_pieces rn_float_of_tok out name name = Ok out.
+Proof. exact cli_text_out_echo_fixed_point_exact. Qed.
+Check C06_cli_text_out_echo_fixed_point_exact : forall pfs pbody emit nameof v name,
+  json_data v = true -> value_doubles v = true -> value_no_reserved pfs v = true ->
+  (jdepth (write_outputs [(name, sv_of v)]) <= 127)%nat ->
+  let out := jprint exact_pieces (write_outputs [(name, sv_of v)]) in
+  cli_text_echo pfs pbody emit nameof exact_pieces rn_float_of_tok out name name = Ok out.
+Print Assumptions C06_cli_text_out_echo_fixed_point_exact.
+
+(* ---- non-vacuity of the new statements ---- *)
+Open Scope string_scope.
+Example ex_exact_texts :
+  render_tok (exact_pieces (num_of_bits 0x3fb999999999999a))
+    = "0.1000000000000000055511151231257827021181583404541015625" /\
+  render_tok (exact_pieces negzero) = "-0.0" /\
+  render_tok (exact_pieces (num_of_bits 0x4340000000000000)) = "9007199254740992.0" /\
+  rn_float_of_tok tok_0_1 = Some (num_of_bits 0x3fb999999999999a) /\
+  rn_float_of_tok tok_2p53m1 = Some (num_of_bits 0x433fffffffffffff).
+Proof. vm_compute. repeat split; reflexivity. Qed.
+(* an input text with free layout, a duplicate key, an integer beyond 2^53 and a float: parsed,
+   echoed, printed with the exact printer, and the output parses to the canonical member *)
+Definition ex_input_text : string :=
+  "{ ""k"" : 1, ""a"":[ -1 , 0.1, 18446744073709551615 ],""k"":{""z"":null,""y"":-0.0} }".
+Example ex_text_echo :
+  exists m, json_from_str rn_float_of_tok ex_input_text = Some (JObj m) /\
+  cli_text_echo no_fn no_body no_emit no_name exact_pieces rn_float_of_tok ex_input_text "a" "out"
+  = Ok "{""out"":[-1.0,0.1000000000000000055511151231257827021181583404541015625,18446744073709551616.0]}".
+Proof. eexists. split; vm_compute; reflexivity. Qed.
